@@ -43,8 +43,11 @@ VARIABLES it,        \* next step number of each walker
           cursor, cgen, insync, fstep,
           lastgot,   \* hills taken from the peer's hills file by the latest step (observation)
           missing,   \* history: hills the peer had published that the walker still lacks after its latest exchange with a complete view
+          oldbuf,    \* the hills file that the walker's latest snapshot removed (its records at the time it was closed)
+          midwin,    \* the walker's latest action was a snapshot: a reader may run between the rename of the new state file
+                     \* and the removal of the old hills file, i.e. see the NEW snapshot together with the OLD hills file
           quirk, hist
-wvars == <<it, first, own, buf, flushed, sstep, gen, mir, dup, cursor, cgen, insync, fstep, lastgot, missing, quirk, hist>>
+wvars == <<it, first, own, buf, flushed, sstep, gen, mir, dup, cursor, cgen, insync, fstep, lastgot, missing, oldbuf, midwin, quirk, hist>>
 
 Walkers == {1, 2}
 Peer(w) == 3 - w
@@ -57,10 +60,17 @@ WInit == /\ it = [w \in Walkers |-> 0] /\ first = [w \in Walkers |-> TRUE]
          /\ cursor = [w \in Walkers |-> 0] /\ cgen = [w \in Walkers |-> 0]
          /\ insync = [w \in Walkers |-> FALSE] /\ fstep = [w \in Walkers |-> 0]
          /\ lastgot = [w \in Walkers |-> {}] /\ missing = [w \in Walkers |-> {}] /\ quirk = {} /\ hist = <<>>
+         /\ oldbuf = [w \in Walkers |-> <<>>] /\ midwin = [w \in Walkers |-> FALSE]
 
 \* what reader w may be shown of peer v: n complete records (n <= flushed), whether a partial record follows,
 \* and which snapshot: the current one, or (torn copy) the current hills file with the previous snapshot is not modelled
-Views(v) == [n : 0..flushed[v], partial : BOOLEAN]
+\* stale = TRUE: the window inside the peer's snapshot (write_state_to_replicas: temp file, rename over the state file, THEN
+\* close + remove + recreate the hills file): the new snapshot with a prefix of the old hills file, whose records up to and
+\* including the snapshot's own step are already contained in the snapshot
+Views(v) == [n : 0..flushed[v], partial : BOOLEAN, stale : {FALSE}]
+            \cup (IF midwin[v] THEN [n : 0..Len(oldbuf[v]), partial : BOOLEAN, stale : {TRUE}] ELSE {})
+FileOf(v, view) == IF view.stale THEN oldbuf[v] ELSE buf[v]
+WholeFile(v, view) == view.n = (IF view.stale THEN Len(oldbuf[v]) ELSE flushed[v])
 
 \* the exchange part of walker w's step, given the view of the peer's files.  As in read_replica_files(): a successful
 \* re-read of the peer's state file replaces the merged hills by the snapshot but does NOT rewind the cursor (the rewind
@@ -71,14 +81,14 @@ Exchange(w, view, newflushed) ==
       base == IF resync THEN {h \in own[v] : h <= sstep[v]} ELSE mir[w]
       fs == IF resync THEN sstep[v] ELSE fstep[w]
       cur == cursor[w]
-      recs == SubSeq(buf[v], 1, view.n)
+      recs == SubSeq(FileOf(v, view), 1, view.n)
       fresh == IF cur >= Len(recs) THEN <<>> ELSE SubSeq(recs, cur + 1, Len(recs))
       got == {h \in SeqSet(fresh) : h > fs}
       skipped == {recs[i] : i \in 1..(IF cur < Len(recs) THEN cur ELSE Len(recs))}
       lost == {h \in skipped : h > fs /\ h \notin base}
   IN /\ mir' = [mir EXCEPT ![w] = base \cup got]
      /\ lastgot' = [lastgot EXCEPT ![w] = got]
-     /\ missing' = [missing EXCEPT ![w] = IF view.n = flushed[v] /\ ~view.partial
+     /\ missing' = [missing EXCEPT ![w] = IF WholeFile(v, view) /\ ~view.partial
                                            THEN ({h \in own[v] : h <= sstep[v]} \cup SeqSet(SubSeq(buf[v], 1, flushed[v]))) \ (base \cup got)
                                            ELSE {}]
      /\ dup' = [dup EXCEPT ![w] = @ + Cardinality(got \cap base)]
@@ -104,6 +114,8 @@ Step(w, view) ==
         \* the walker's own snapshot schedules a re-read of the peer's state file (after this step's exchange)
         /\ insync' = [insync EXCEPT ![w] = IF snapshot THEN FALSE ELSE IF share THEN TRUE ELSE @]
         \* the walker's own snapshot at the end of the step
+        /\ midwin' = [midwin EXCEPT ![w] = snapshot]
+        /\ oldbuf' = [oldbuf EXCEPT ![w] = IF snapshot THEN newbuf ELSE @]
         /\ IF snapshot
              THEN /\ sstep' = [sstep EXCEPT ![w] = t] /\ gen' = [gen EXCEPT ![w] = @ + 1]
                   /\ buf' = [buf EXCEPT ![w] = <<>>] /\ flushed' = [flushed EXCEPT ![w] = 0]
@@ -123,14 +135,15 @@ Restart(w) ==
   /\ mir' = [mir EXCEPT ![w] = {}] /\ cursor' = [cursor EXCEPT ![w] = 0] /\ cgen' = [cgen EXCEPT ![w] = 0]
   /\ insync' = [insync EXCEPT ![w] = FALSE] /\ fstep' = [fstep EXCEPT ![w] = 0]
   /\ lastgot' = [lastgot EXCEPT ![w] = {}] /\ missing' = [missing EXCEPT ![w] = {}]
-  /\ hist' = Append(hist, [w |-> w, t |-> -1, view |-> [n |-> 0, partial |-> FALSE]])
+  /\ oldbuf' = [oldbuf EXCEPT ![w] = buf[w]] /\ midwin' = [midwin EXCEPT ![w] = TRUE]
+  /\ hist' = Append(hist, [w |-> w, t |-> -1, view |-> [n |-> 0, partial |-> FALSE, stale |-> FALSE]])
   /\ UNCHANGED <<own, dup, quirk>>
 WNext == \/ \E w \in Walkers : \E view \in Views(Peer(w)) : Step(w, view)
          \/ \E w \in Walkers : Restart(w)
 WSpec == WInit /\ [][WNext]_wvars
 
 \* a complete view: everything the peer has flushed, no torn record
-CompleteView(w, view) == view.n = flushed[Peer(w)] /\ ~view.partial
+CompleteView(w, view) == WholeFile(Peer(w), view) /\ ~view.partial
 \* after an exchange that saw everything the peer had published, nothing published is missing
 CompleteFull == \A w \in Walkers : missing[w] = {}
 Complete == quirk = {} => CompleteFull
